@@ -70,7 +70,10 @@ class Leaf(Term):
 
 
 class Op(Term):
-    FIELDS = ("op", "l", "r")
+    """same=True: both operands are ONE object (x ^ x with the very same x)."""
+
+    FIELDS = ("op", "l", "r", "same")
+    DEFAULTS = {"same": False}
 
 
 class Prim(Term):
